@@ -1612,7 +1612,7 @@ class ComponentNode(BaseNode):
         )
         return node
 
-    def render(self, context: Context, *args: Any, **kwargs: Any) -> str:
+    def render(self, context: Context, /, *args: Any, **kwargs: Any) -> str:
         # Do not render nested `{% component %}` tags in other `{% component %}` tags
         # at the stage when we are determining if the latter has named fills or not.
         if _is_extracting_fill(context):
